@@ -1,0 +1,17 @@
+//go:build verif
+
+// Contracts for package server, checked by /verif/govc. Comments only.
+
+package server
+
+//@ func jobToResult
+//@   requires [nonnil] j != nil
+//@   ensures  [C08.errored] res.Errored <==> exists i :: 0 <= i && i < len(j.Tasks) && j.Tasks[i].Errored
+//@   ensures  [C15.fields] res.Pipeline == j.Pipeline && res.Completed == j.Completed && res.Canceled == j.Canceled && res.Created == j.Created && res.Start == j.Start && res.End == j.End && res.Variables == j.Variables && res.User == j.User && len(res.Tasks) == len(j.Tasks)
+//@   ensures  [C15.taskFields] forall i :: 0 <= i && i < len(j.Tasks) ==> res.Tasks[i].Name == j.Tasks[i].Name && res.Tasks[i].Status == j.Tasks[i].Status && res.Tasks[i].Start == j.Tasks[i].Start && res.Tasks[i].End == j.Tasks[i].End && res.Tasks[i].Skipped == j.Tasks[i].Skipped && res.Tasks[i].ExitCode == j.Tasks[i].ExitCode && res.Tasks[i].Errored == j.Tasks[i].Errored
+//@   modifies nothing
+//@   loop 1 invariant [sofar] 0 <= $i + 1 && $i + 1 <= len(j.Tasks) && len(taskResults) == $i + 1 && wf(taskResults) && (base(taskResults) == 0 || fresh(base(taskResults))) && (errored <==> exists k :: 0 <= k && k <= $i && j.Tasks[k].Errored)
+//@   loop 1 invariant [copied] forall k :: 0 <= k && k <= $i ==> taskResults[k].Name == j.Tasks[k].Name && taskResults[k].Status == j.Tasks[k].Status && taskResults[k].Start == j.Tasks[k].Start && taskResults[k].End == j.Tasks[k].End && taskResults[k].Skipped == j.Tasks[k].Skipped && taskResults[k].ExitCode == j.Tasks[k].ExitCode && taskResults[k].Errored == j.Tasks[k].Errored
+
+//@ property C08: server.jobToResult/ensures[C08.*] server.jobToResult/loop*
+//@ property C15: server.jobToResult/ensures[C15.*] server.jobToResult/loop*
